@@ -156,11 +156,7 @@ def run(ctx):
                 b, t = cs[0]
                 vo = prim.origin_of_operand(fn, t.args[1]).strip()
                 desc = vo.fmt()
-                ok = vo.k == "index" and any(x.k == "arg" and x.a["name"] == "args" for x in vo.walk())
-                if ok:
-                    ix = vo.kids[1].strip()
-                    core = ix.kids[0].strip() if ix.k == "field" and ix.kids else ix
-                    ok = (core.k == "bin" and core.a in ("Add", "AddWithOverflow") and any(c.get("v") == 1 for c in core.consts())) or core.k == "var"
+                ok = C.token_at_offset(fn, vo) in (0, 1)
             ctx.ob("R3", "operand-converter:%s" % tok, ok, "%s parses its operand with %s applied to %s; oracle: %s on the token after it" % (tok, [prim.short(t.callee) for _, t in cs], desc, prim.short(conv)), fn=fn, where=prim.site(fn, a.entry), how="dispatch table + provenance")
             # the converter's result reaches the matcher constructor
             ctors = [(b, t) for b, t in a.calls if (t.callee or "").startswith(M) and t.j.get("callee_name") in ("new", "from_comparable") and t.callee not in (CONV, CONV_S)]
